@@ -22,7 +22,8 @@ From SK Require Import lib.Tok lib.LGraph model.C03_Model proof.C03_Spec proof.C
                        proof.C03_Skeleton proof.C03_StripCounts
                        proof.C03_Wiring proof.C03_WiringCount proof.C03_PairIds proof.C03_StripExact proof.C03_StripCor
                        proof.C03_PairIdsComplete proof.C03_Wrap proof.C03_DefaultBalance
-                       proof.C03_DefaultEnd proof.C03_DefaultWiring.
+                       proof.C03_DefaultEnd proof.C03_DefaultWiring
+                       model.C03_Order proof.C03_Ord proof.C03_FirstFit proof.C03_OrdEnd.
 Import ListNotations.
 Local Open Scope Z_scope.
 
@@ -590,3 +591,184 @@ Theorem C03_match_link : forall (host : hostg) (rc : its) (m : mapping),
   edges_closedb rc = true -> match_okb host (fst (its_decompose rc)) m = true -> match_rcb host rc m = true.
 Proof. exact match_okb_rcb. Qed.
 Print Assumptions C03_match_link.
+
+(** ** round 5: _explicit_h for EVERY visiting order of a hydrogen-transfer group (model/C03_Order.v).
+    The code walks the atoms of one group in the order of a Python SET (CPython's hash-table order: {1, 8, 2, 9} is visited
+    8, 1, 2, 9), not in sorted order as [explicit_h] does; with two donors and two recipients in one group the partners
+    differ (proof/C03_OrdEnd.v, ex_ord_changes_wiring).  [explicit_h_ord ord] takes the visiting order as a parameter;
+    the correspondence runs it with [ord_of tbl] (the orders recorded from the implementation, each used only for a
+    component with exactly its atoms, sorted order otherwise).  Everything above about [explicit_h] holds for every [ord]
+    that returns a duplicate-free rearrangement of its argument. *)
+
+(** [explicit_h] is the instance "sorted order" *)
+Theorem C03_explicitH_ord_sorted : forall T : its, explicit_h_ord sort_N T = explicit_h T.
+Proof. exact explicit_h_ord_sort. Qed.
+Print Assumptions C03_explicitH_ord_sorted.
+
+(** the order function of the correspondence is such a rearrangement, whatever the table *)
+Theorem C03_ord_of_rearranges : forall (tbl : list (list N)) (l : list N),
+  (forall x : N, In x (ord_of tbl l) <-> In x l) /\ (NoDup l -> NoDup (ord_of tbl l)).
+Proof. intros tbl l. split; [intros x; apply ord_of_in|apply ord_of_nodup]. Qed.
+Print Assumptions C03_ord_of_rearranges.
+
+(** accounting and shape (the statements of C03_explicitH_partial and C03_explicitH_shape) for every order *)
+Theorem C03_explicitH_ord_partial : forall (ord : list N -> list N),
+  (forall (l : list N) (x : N), In x (ord l) <-> In x l) ->
+  forall (T T' : its) (ms : list (N * N)),
+  NoDup (node_ids T) -> explicit_h_ord ord T = Some (T', ms) ->
+  (forall sd : N * N, In sd ms -> has_node T (fst sd) = true /\ has_node T (snd sd) = true) /\
+  (forall e : N, elem_count e (fst (its_decompose T')) = elem_count e (fst (its_decompose T)) /\
+                 elem_count e (snd (its_decompose T')) = elem_count e (snd (its_decompose T))) /\
+  (total_charge (fst (its_decompose T')) = total_charge (fst (its_decompose T)) /\
+   total_charge (snd (its_decompose T')) = total_charge (snd (its_decompose T))) /\
+  (forall a b : N, In a (node_ids T) -> In b (node_ids T) -> adj T' a b = adj T a b) /\
+  (forall (n : N) (a : inode), label T n = Some a ->
+     exists a' : inode, label T' n = Some a' /\
+       set_hc (iG a') 0 = set_hc (iG a) 0 /\ set_hc (iH a') 0 = set_hc (iH a) 0 /\ i_hc a' = i_hc a /\ i_hp a' = i_hp a) /\
+  length (gnodes T') = (length (gnodes T) + length ms)%nat.
+Proof. exact explicit_h_ord_accounting. Qed.
+Print Assumptions C03_explicitH_ord_partial.
+
+Theorem C03_explicitH_ord_shape : forall (ord : list N -> list N),
+  (forall (l : list N) (x : N), In x (ord l) <-> In x l) ->
+  forall (T T' : its) (ms : list (N * N)),
+  NoDup (node_ids T) -> explicit_h_ord ord T = Some (T', ms) ->
+  gedges T' = gedges T ++ new_edges (N.succ (max_id T)) ms /\
+  node_ids T' = node_ids T ++ map fst (new_nodes (N.succ (max_id T)) ms) /\
+  (forall (k : N) (a : inode), In (k, a) (new_nodes (N.succ (max_id T)) ms) -> label T' k = Some H_inode) /\
+  (forall (n : N) (a : inode), label T n = Some a ->
+     exists a' : inode, label T' n = Some a' /\
+       a_hc (iG a') = a_hc (iG a) - occurrences n (map fst ms) /\
+       a_hc (iH a') = a_hc (iH a) - occurrences n (map snd ms)).
+Proof. exact explicit_h_ord_shape. Qed.
+Print Assumptions C03_explicitH_ord_shape.
+
+(** the wiring stays inside one group for every order: donor with a surplus, recipient with a deficit, same group *)
+Theorem C03_explicitH_ord_wiring : forall (ord : list N -> list N),
+  (forall (l : list N) (x : N), In x (ord l) <-> In x l) ->
+  forall (T T' : its) (ms : list (N * N)),
+  NoDup (node_ids T) -> explicit_h_ord ord T = Some (T', ms) ->
+  gedges T' = gedges T ++ new_edges (N.succ (max_id T)) ms /\
+  forall sd : N * N, In sd ms ->
+    same_group T (fst sd) (snd sd) /\ 0 < dl_of T (fst sd) /\ dl_of T (snd sd) < 0.
+Proof. exact explicit_h_ord_wiring. Qed.
+Print Assumptions C03_explicitH_ord_wiring.
+
+(** usage counts for every order; and against the sorted order: every atom gives the same number of hydrogens, and (exact
+    groups) takes the same number — the visiting order changes only WHO is paired with WHOM *)
+Theorem C03_explicitH_ord_usage : forall (ord : list N -> list N),
+  (forall (l : list N) (x : N), In x (ord l) <-> In x l) -> (forall l : list N, NoDup l -> NoDup (ord l)) ->
+  forall (T T' : its) (ms : list (N * N)),
+  explicit_h_ord ord T = Some (T', ms) ->
+  (forall x : N,
+    occurrences x (map fst ms) = (if grouped T x then Z.max 0 (dl_of T x) else 0) /\
+    0 <= occurrences x (map snd ms) <= (if grouped T x then Z.max 0 (- dl_of T x) else 0)) /\
+  (pairs_exactb T = true ->
+   forall x : N, occurrences x (map snd ms) = (if grouped T x then Z.max 0 (- dl_of T x) else 0)) /\
+  (forall (T0 : its) (ms0 : list (N * N)), explicit_h T = Some (T0, ms0) ->
+     (forall x : N, occurrences x (map fst ms) = occurrences x (map fst ms0)) /\
+     (pairs_exactb T = true -> forall x : N, occurrences x (map snd ms) = occurrences x (map snd ms0))).
+Proof.
+  intros ord Hin Hnd T T' ms H. split; [|split].
+  - exact (explicit_h_ord_usage ord Hin Hnd T T' ms H).
+  - exact (explicit_h_ord_usage_exact ord Hin Hnd T T' ms H).
+  - intros T0 ms0 H0. exact (explicit_h_ord_same_usage ord Hin Hnd T T' ms T0 ms0 H H0).
+Qed.
+Print Assumptions C03_explicitH_ord_usage.
+
+(** whether _explicit_h raises does not depend on the order *)
+Theorem C03_explicitH_ord_crash_iff : forall (ord : list N -> list N),
+  (forall (l : list N) (x : N), In x (ord l) <-> In x l) -> (forall l : list N, NoDup l -> NoDup (ord l)) ->
+  forall T : its, explicit_h_ord ord T = None <-> pairs_okb T = false.
+Proof. exact explicit_h_ord_crash_iff. Qed.
+Print Assumptions C03_explicitH_ord_crash_iff.
+
+(** which partner is chosen INSIDE a group, in closed form (was: compared only).  [slots f l] = every atom of l repeated
+    f(atom) times; [zip_migrations T comp] = combine (donors of comp in visiting order, each repeated as often as its
+    surplus) (recipients in visiting order, each as often as its deficit): the k-th hydrogen given goes to the k-th free
+    place.  First fit IS that zip, and it exists exactly when the places suffice; the list of migrations of the whole
+    graph is the concatenation of the groups' zips *)
+Theorem C03_first_fit_zip : forall (T : its) (comp : list N),
+  migrations_of T comp = (if comp_balancedb T comp then Some (zip_migrations T comp) else None) /\
+  zip_migrations T comp =
+    combine (slots (dl_of T) (filter (fun n => 0 <? dl_of T n) comp))
+            (slots (fun n => - dl_of T n) (filter (fun n => dl_of T n <? 0) comp)).
+Proof. intros T comp. split; [apply migrations_of_closed|apply zip_migrations_eq]. Qed.
+Print Assumptions C03_first_fit_zip.
+
+Theorem C03_explicitH_ord_closed_form : forall (ord : list N -> list N) (T T' : its) (ms : list (N * N)),
+  explicit_h_ord ord T = Some (T', ms) ->
+  ms = flat_map (fun c => zip_migrations T (ord c)) (components (pair_to_nodes T)) /\ T' = apply_migrations T ms.
+Proof. exact explicit_h_ord_migrations. Qed.
+Print Assumptions C03_explicitH_ord_closed_form.
+
+(** the bit the correspondence evaluates on every glued graph (pairing = closed form on every group) is always true *)
+Theorem C03_zip_okb : forall (ord : list N -> list N) (T : its), zip_okb ord T = true.
+Proof. exact zip_okb_true. Qed.
+Print Assumptions C03_zip_okb.
+
+(** glue then _explicit_h, and expand / glue / _explicit_h (C03_explicitH_conserve, C03_explicit_path) for every order *)
+Theorem C03_explicitH_ord_conserve : forall (ord : list N -> list N),
+  (forall (l : list N) (x : N), In x (ord l) <-> In x l) ->
+  forall (host : hostg) (rc : its) (m : mapping) (T T' : its) (ms : list (N * N)),
+  wf_hostb host = true -> wf_rcb rc = true -> match_rcb host rc m = true -> glue host rc m = Some T ->
+  balancedb rc = true -> explicit_h_ord ord T = Some (T', ms) ->
+  (forall e : N, elem_count e (fst (its_decompose T')) = elem_count e (snd (its_decompose T'))) /\
+  total_charge (fst (its_decompose T')) = total_charge (snd (its_decompose T')) /\
+  (forall e : N, elem_count e (fst (its_decompose T')) = elem_count e (mol_of_host host)) /\
+  (forall a b : N, In a (node_ids host) -> In b (node_ids host) -> bondG T' a b = adj host a b).
+Proof. exact explicit_h_ord_conserve. Qed.
+Print Assumptions C03_explicitH_ord_conserve.
+
+Theorem C03_explicit_path_ord : forall (ord : list N -> list N),
+  (forall (l : list N) (x : N), In x (ord l) <-> In x l) ->
+  forall (host : hostg) (nodes : list N) (rc : its) (m : mapping) (T T' : its) (ms : list (N * N)),
+  wf_hostb host = true -> wf_hostb (h_to_explicit host nodes) = true -> wf_rcb rc = true ->
+  match_rcb (h_to_explicit host nodes) rc m = true -> glue (h_to_explicit host nodes) rc m = Some T ->
+  explicit_h_ord ord T = Some (T', ms) ->
+  (forall e : N, elem_count e (fst (its_decompose T')) = elem_count e (mol_of_host host)) /\
+  total_charge (fst (its_decompose T')) = total_charge (mol_of_host host) /\
+  (forall a b : N, In a (node_ids host) -> In b (node_ids host) -> bondG T' a b = adj host a b) /\
+  (balancedb rc = true ->
+     (forall e : N, elem_count e (fst (its_decompose T')) = elem_count e (snd (its_decompose T'))) /\
+     total_charge (fst (its_decompose T')) = total_charge (snd (its_decompose T'))).
+Proof. exact explicit_path_ord. Qed.
+Print Assumptions C03_explicit_path_ord.
+
+(** the default mode end to end (C03_default_end_to_end_direct / _expanded, C03_default_migrations_in_template_groups) for
+    every order: conservation from the template's condition, and every re-materialised hydrogen moves inside one
+    hydrogen-transfer group of the TEMPLATE *)
+Theorem C03_default_end_to_end_ord : forall (ord : list N -> list N),
+  (forall (l : list N) (x : N), In x (ord l) <-> In x l) ->
+  forall (tpl rc : its) (l r : molg) (host : hostg) (nodes : list N) (m : mapping) (T T' : its) (ms : list (N * N)),
+  nodupb (node_ids tpl) = true -> (forall (k : N) (a : inode), In (k, a) (gnodes tpl) -> a_el (iH a) = a_el (iG a)) ->
+  simple_edgesb (gedges tpl) = true -> synrule tpl true = Some (rc, l, r) -> tpl_condition tpl ->
+  wf_hostb host = true -> wf_rcb rc = true ->
+  ((match_rcb host rc m = true /\ glue host rc m = Some T) \/
+   (wf_hostb (h_to_explicit host nodes) = true /\ match_rcb (h_to_explicit host nodes) rc m = true /\
+    glue (h_to_explicit host nodes) rc m = Some T)) ->
+  explicit_h_ord ord T = Some (T', ms) ->
+  (forall e : N, elem_count e (fst (its_decompose T')) = elem_count e (snd (its_decompose T'))) /\
+  total_charge (fst (its_decompose T')) = total_charge (snd (its_decompose T')) /\
+  (forall e : N, elem_count e (fst (its_decompose T')) = elem_count e (mol_of_host host)) /\
+  (forall a b : N, In a (node_ids host) -> In b (node_ids host) -> bondG T' a b = adj host a b).
+Proof.
+  intros ord Hin tpl rc l r host nodes m T T' ms Hnd Hel Hs H Hc Hwh Hwr [[Hm Hg]|[Hwx [Hm Hg]]] He.
+  - exact (default_end_to_end_direct_ord ord Hin tpl rc l r host m T T' ms Hnd Hel Hs H Hc Hwh Hwr Hm Hg He).
+  - exact (default_end_to_end_expanded_ord ord Hin tpl rc l r host nodes m T T' ms Hnd Hel Hs H Hc Hwh Hwx Hwr Hm Hg He).
+Qed.
+Print Assumptions C03_default_end_to_end_ord.
+
+Theorem C03_default_migrations_in_template_groups_ord : forall (ord : list N -> list N),
+  (forall (l : list N) (x : N), In x (ord l) <-> In x l) ->
+  forall (tpl rc : its) (l r : molg) (host : hostg) (m : mapping) (T : its),
+  nodupb (node_ids tpl) = true -> (forall (k : N) (n : inode), In (k, n) (gnodes tpl) -> i_hp n = None) ->
+  synrule tpl true = Some (rc, l, r) ->
+  wf_hostb host = true -> wf_rcb rc = true -> match_rcb host rc m = true -> glue host rc m = Some T ->
+  forall (T' : its) (ms : list (N * N)), explicit_h_ord ord T = Some (T', ms) ->
+  forall sd : N * N, In sd ms ->
+    exists x y : N, mget m x = Some (fst sd) /\ mget m y = Some (snd sd) /\ tpl_group tpl x y /\
+                    0 < dl_of T (fst sd) /\ dl_of T (snd sd) < 0.
+Proof. exact default_migrations_in_template_groups_ord. Qed.
+Print Assumptions C03_default_migrations_in_template_groups_ord.
+
